@@ -39,8 +39,23 @@ def c02() -> int:
     # double claim is not masked by the models' own 0 / total guards
     fsx(c, RES + ({"variant": "core", "slots": 2, "low_energy": False, "name": "W-res/two-slots"},), ("hivemc.bundles", "c02", {}), K=3, H=5 if quick else 7,
         needs=["c02:two_holders"])
+    auto_worlds(c, "c02", quick)
     bisim(c, RES + ({"variant": "core", "pairs": False},), K=1 if quick else 2, H=3 if quick else 4)
     return c.finish()
+
+
+AUTO = ("hivemc.w_auto", "make")
+
+
+def auto_worlds(c, bundle: str, quick: bool, make=AUTO, extra=None, needs=()):
+    """the default control stack left to run (Dispatcher + ChargingFleetManager + drivers' own logic), the environment only
+    deciding when the requests arrive -- long horizon; and the same with a scripted controller overriding it -- short horizon"""
+    kw = dict(extra or {})
+    fsx(c, make + (dict(kw),), ("hivemc.bundles", bundle, {}), K=3, H=14 if quick else 22,
+        needs=["auto:Idle:DispatchStation:DispatchStation", "auto:Idle:DispatchTrip:DispatchTrip", "auto:ReserveBase:ChargeBase:ChargingBase",
+               "auto:Idle:DispatchBase:DispatchBase", "default:ChargingBase>ReserveBase", "default:DispatchBase>ReserveBase",
+               "default:ChargingStation>Idle|auto:ChargingStation:Idle:Idle"] + list(needs))
+    fsx(c, make + (dict(kw, controller=True),), ("hivemc.bundles", bundle, {}), K=2, H=7 if quick else 9)
 
 
 def c07() -> int:
@@ -59,6 +74,7 @@ def c07() -> int:
         needs=["instr:Idle:ChargeBase:ChargingBase", "instr:ChargingStation:ChargeBase:ChargingStation|instr:Idle:ChargeBase:Idle"])
     fsx(c, ("hivemc.w_prec", "make", {}), ("hivemc.bundles", "c07", {}), K=2 if quick else 3, H=6 if quick else 8)
     fsx(c, REQ + ({"requests": ["p0", "p1", "r2"], "name": "W-req/pooling"},), ("hivemc.bundles", "c07", {}), K=2 if quick else 3, H=8 if quick else 10, needs=["c07:pickup", "c07:dropoff"])
+    auto_worlds(c, "c07", quick, needs=["c07:pickup", "c07:dropoff"])
     return c.finish()
 
 
@@ -80,6 +96,7 @@ def c03() -> int:
     # requests that allow pooling (optional column of the request file), served by autonomous vehicles as one-request pooling trips
     fsx(c, REQ + ({"requests": ["p0", "p1", "r2"], "name": "W-req/pooling"},), ("hivemc.bundles", "c03", {}), K=3 if quick else 4, H=8 if quick else 10,
         needs=["c03:pickup", "c03:dropoff_later_step", "c03:instruction_to_pooling_vehicle_with_passengers", "default:DispatchTrip>ServicingPoolingTrip"])
+    auto_worlds(c, "c03", quick, needs=["c03:pickup", "c03:dropoff_later_step"])
     bisim(c, REQ + ({"pairs": False},), K=1 if quick else 2, H=3 if quick else 4)
     return c.finish()
 
@@ -103,6 +120,7 @@ def c17() -> int:
         ("hivemc.bundles", "c17_builtin", {}), K=3, H=H + 6, needs=["c17:vehicle_under_way_at_step_boundary"])
     fsx(c, REQ + ({"dispatcher": True, "cancel": 600, "dispatch_states": ["idle", "repositioning", "dispatchtrip"], "requests": ["r0", "r3", "r5"], "name": "W-req+dispatcher/rematch"},),
         ("hivemc.bundles", "c17", {}), K=K, H=H)
+    auto_worlds(c, "c17", quick)
     return c.finish()
 
 
@@ -134,6 +152,7 @@ def c05() -> int:
         ("hivemc.bundles", "c05", {}), K=2 if quick else 3, H=7 if quick else 9, needs=needs)
     fsx(c, REQ + ({},), ("hivemc.bundles", "c05", {}), K=3 if quick else 4, H=8 if quick else 10, needs=["c05:fare"])
     fsx(c, REQ + ({"requests": ["p0", "p1", "r2"], "name": "W-req/pooling"},), ("hivemc.bundles", "c05", {}), K=2 if quick else 3, H=8 if quick else 10, needs=["c05:fare"])
+    auto_worlds(c, "c05", quick, extra={"prices": True}, needs=["c05:charge:ChargingBase:LEVEL_2", "c05:charge:ChargingStation:DCFC|c05:charge:ChargingStation:LEVEL_2", "c05:fare"])
     return c.finish()
 
 
@@ -170,6 +189,7 @@ def c08() -> int:
         needs=["default:DispatchTrip>ServicingTrip", "default:ServicingTrip>Idle", "env:R"])
     fsx(c, REQ + ({},), ("hivemc.bundles", "c08", {}), K=3 if quick else 4, H=8 if quick else 10)
     fsx(c, GRID + ({},), ("hivemc.bundles", "c08", {}), K=2 if quick else 3, H=9 if quick else 11)
+    auto_worlds(c, "c08", quick)
     c.assumptions += ["re-adding an id that is already present is outside the alphabet (the API gives it no meaning)"]
     return c.finish()
 
@@ -305,6 +325,7 @@ def c16() -> int:
     fsx(c, ("hivemc.w_imm", "make_req", {"dispatcher": True, "name": "W-req+dispatcher/imm"}), ("hivemc.bundles", "c16", {}), K=2, H=6 if quick else 8, needs=["c16:carried_controller_steps"])
     fsx(c, ("hivemc.w_imm", "make_res", {"variant": "core", "throttle": 0.24, "mechs": ("thirsty", "thirsty", "quiet"), "pairs": False, "name": "W-res/imm/throttled"}),
         ("hivemc.bundles", "c16", {}), K=2, H=5 if quick else 7, needs=["c16:carried_controller_steps"])
+    fsx(c, ("hivemc.w_imm", "make_auto", {}), ("hivemc.bundles", "c16", {}), K=2, H=10 if quick else 16, needs=["c16:carried_controller_steps"])
     return c.finish()
 
 
@@ -341,6 +362,7 @@ def c19() -> int:
         ("hivemc.bundles", "c19", {}), K=2 if quick else 3, H=7 if quick else 9, needs=needs)
     fsx(c, ("hivemc.w_log", "make_req", {}), ("hivemc.bundles", "c19", {}), K=3 if quick else 4, H=8 if quick else 10, needs=["c19:pickup", "c19:dropoff"])
     fsx(c, ("hivemc.w_log", "make_req", {"requests": ["p0", "p1", "r2"], "name": "W-req/pooling/log"}), ("hivemc.bundles", "c19", {}), K=2 if quick else 3, H=8 if quick else 10, needs=["c19:pickup"])
+    auto_worlds(c, "c19", quick, make=("hivemc.w_log", "make_auto"), extra={"prices": True}, needs=["c19:pickup", "c19:dropoff", "c19:charge"])
     # end-to-end cross-check: scenarios loaded by load_scenario (handlers installed by the library), run linearly, whole-run sums
     from .enumrun import pmap
     from .report import Finding
